@@ -280,7 +280,7 @@ var nodeToASTTypes = map[reflect.Type][]reflect.Type{
 	reflect.TypeFor[List]():                    {reflect.TypeFor[*ast.BlockStmt](), reflect.TypeFor[*ast.FieldList]()},
 	reflect.TypeFor[Builtin]():                 {reflect.TypeFor[*ast.Ident]()},
 	reflect.TypeFor[Object]():                  {reflect.TypeFor[*ast.Ident]()},
-	reflect.TypeFor[Symbol]():                  {reflect.TypeFor[*ast.Ident](), reflect.TypeFor[*ast.SelectorExpr]()},
+	reflect.TypeFor[Symbol]():                  {reflect.TypeFor[*ast.Ident](), reflect.TypeFor[*ast.SelectorExpr](), reflect.TypeFor[*ast.IndexExpr](), reflect.TypeFor[*ast.IndexListExpr]()},
 	reflect.TypeFor[Any]():                     allTypes,
 	reflect.TypeFor[RangeStmt]():               {reflect.TypeFor[*ast.RangeStmt]()},
 	reflect.TypeFor[AssignStmt]():              {reflect.TypeFor[*ast.AssignStmt]()},
